@@ -22,7 +22,8 @@ RULE = ("Grid: requires_python pool (ranges, holes, unions, points, universal) x
         "pairs (quick: sampled). Monotonicity: all pairs rp(A) subset rp(B) x wheel universe (python tags x abi tags x "
         "platform tag any / one accepted / one foreign). Platform nesting: all pairs older/newer of one OS/arch from "
         "the C09 grid. Non-trivial/distinct: pairs with different platforms of one OS class, or strictly nested "
-        "requires_python.")
+        "requires_python."
+        " Derived specs: the wider spec is built with dataclasses.replace from an already used narrower one (requires_python and platform clauses).")
 ASSUMPTIONS = [
     "subset of requires_python is decided structurally on critical points (exact)",
     "relational (metamorphic) oracle only: no external reference",
